@@ -98,7 +98,7 @@ META = {
                     "entries of the approximation table are excluded from the exactness claim, not verified"],
     "technique": "closure over verified primitives (call-site enumeration + callee resolution + exception table)",
 }
-MIN_INSTANCES = {"R1": 25, "R2": 7, "R3": 6, "R4": 1, "R5": 6, "R6": 9, "R7": 1}
+MIN_INSTANCES = {"R1": 25, "R2": 7, "R3": 6, "R4": 1, "R5": 6, "R6": 9, "R7": 1, "R8": 3}
 
 
 # ========================================================================================
@@ -869,8 +869,40 @@ def _r7_primitives_exact(ctx: Ctx) -> None:
               facts={"c01_obligations": n, "c01_findings": len(bad)})
 
 
+def _r8_state_forwarding(ctx: Ctx) -> None:
+    """R8 (added by the coordinator after an independently seeded change): a method of EquationSystem that takes a
+    `state` argument (the point at which residual and Jacobian are evaluated) must forward it to every assemble /
+    evaluate / value_and_jacobian call it makes; a call that drops it silently evaluates that block at the stored
+    iterate instead, so the assembled Jacobian is no longer the derivative of the assembled residual at `state`."""
+    rel = "src/porepy/numerics/ad/equation_system.py"
+    mod = ctx.repo.module(rel)
+    cls = mod.cls("EquationSystem")
+    n = 0
+    for name, fn in methods(cls).items():
+        params = [a.arg for a in fn.args.args] + [a.arg for a in fn.args.kwonlyargs]
+        if "state" not in params:
+            continue
+        for c in [c_ for c_ in ast.walk(fn) if isinstance(c_, ast.Call)]:
+            f = c.func
+            if not (isinstance(f, ast.Attribute) and f.attr in ("assemble", "evaluate", "value_and_jacobian", "value", "_evaluate_single")):
+                continue
+            recv = u(f.value)
+            if recv not in ("self", "self._ad_parser") and not recv.endswith("_ad_parser"):
+                continue
+            n += 1
+            st = kwarg(c, "state")
+            pos = [u(a_) for a_ in c.args]
+            ok = (st is not None and u(st) == "state") or "state" in pos
+            ctx.check("R8", ok, mod, f"EquationSystem.{name}", c,
+                      f"{name} takes `state` but calls {recv}.{f.attr}(...) without forwarding it: that block is evaluated at the stored "
+                      f"iterate, not at the requested state", construct=f"{name}: {recv}.{f.attr} without state")
+    if n < 3:
+        raise AnchorError(f"EquationSystem: expected at least 3 state-forwarding call sites, found {n}")
+
+
 def run(ctx: Ctx) -> None:
     _r7_primitives_exact(ctx)
+    _r8_state_forwarding(ctx)
     rels: list[str] = []
     for sub in SCOPE_QUICK + (SCOPE_THOROUGH if ctx.tier == "thorough" else []):
         rels += ctx.repo.all_py(sub)
@@ -1091,6 +1123,10 @@ def _m(name, file, old, new, rule, control=False, count=1, **kw):
 
 
 MUTANTS = [
+    dict(name="seed-schur-secondary-loop-drops-state", file="src/porepy/numerics/ad/equation_system.py",
+         old="            if name in secondary_equation_names:\n                A_temp, b_temp = self.assemble(equations=[name], state=state)",
+         new="            if name in secondary_equation_names:\n                A_temp, b_temp = self.assemble(equations=[name])", rule="R8"),
+
     # DESIGN section 9: model-local function with a wrong hand-written Jacobian wrapped in ad.Function
     _m("local-lambda-wrong-jacobian", FPL, 'exp = pp.ad.Function(pp.ad.exp, "density_exponential")',
        'exp = pp.ad.Function(lambda v: pp.ad.AdArray(np.exp(v.val), v._diagvec_mul_jac(np.exp(-v.val))) '
